@@ -1,13 +1,13 @@
-(* C03: FieldsSetDefault.processObject ranges over the DefaultValues map for every field. The model
-   is Model/Passes.v `fields_set_default_obj` (C15), whose `defs` argument is the iteration
-   sequence. Two keys that match the same field (matching is case-insensitive): the last one
-   iterated wins. *)
+(* C03: FieldsSetDefault.processObject. CURRENT code: the keys of DefaultValues are collected,
+   sorted by (package, object, field) and applied in that order (Model/PermPasses.v). The loop over
+   a GIVEN sequence is Model/Passes.v `fields_set_default_obj` (C15): applied directly to the map's
+   iteration sequence it is the code before fix 2c4e6a0 - two keys matching one field
+   (case-insensitive match): the last one iterated won. *)
 From Coq Require Import List String Bool Arith Permutation.
-From Cog Require Import Model.Passes Proofs.PermLemmas.
+From Cog Require Import Model.PermPasses Proofs.PermLemmas.
 Import ListNotations.
 Local Open Scope list_scope.
 
-Definition fsd_entry := (string * string * string * dyn)%type.
 Definition fsd_step (o : object) (f' : field) (d : fsd_entry) : field :=
   let '(r, v) := d in
   if fieldref_matches r o f'
@@ -38,7 +38,17 @@ Proof.
   specialize (Hu eq_refl eq_refl). inversion Hu; subst. reflexivity.
 Qed.
 
-(* no two keys of the map match one and the same field: order-free *)
+(* CURRENT code: for every order in which the map yields its (distinct) keys *)
+Theorem FieldsSetDefault_processObject_invariant_proof : forall seq seq' o,
+  NoDup (map fst seq) -> Permutation seq seq' ->
+  FieldsSetDefault_processObject seq o = FieldsSetDefault_processObject seq' o.
+Proof.
+  intros seq seq' o Hnd Hp. unfold FieldsSetDefault_processObject, fsd_sorted.
+  rewrite (sort_by_generic_key_perm_invariant _ _ (@fst _ dyn) leb3 leb3_total leb3_trans leb3_antisym seq seq' Hnd Hp).
+  reflexivity.
+Qed.
+
+(* the UNSORTED variant: no two keys of the map match one and the same field: order-free *)
 Theorem fields_set_default_unique_invariant_proof : forall defs defs' o, Permutation defs defs' ->
   (forall f d1 d2, In d1 defs -> In d2 defs ->
      fieldref_matches (fst d1) o f = true -> fieldref_matches (fst d2) o f = true -> d1 = d2) ->
@@ -50,7 +60,8 @@ Proof.
   intros acc x y Hx Hy. apply fsd_step_comm. intros. eapply Hu; eauto.
 Qed.
 
-(* two keys that differ only in case: the default that ends up on the field depends on the order *)
+(* the UNSORTED variant: two keys that differ only in case: the default that ends up on the field
+   depended on the order - why the sort is needed *)
 Definition fsd_obj : object :=
   mkObject "Config" [] (TStruct attrs0 [] [mkField "name" [] (TScalar attrs0 KString DNil []) false]) "pkg" "Config".
 Theorem fields_set_default_two_keys_refuted_proof :
